@@ -163,6 +163,9 @@ class Gen:
         decl = []
         for i in range(nenv):
             decl.append({"t": "env", "name": f"E{i}", "fock": self.local_init("F"), "pol": self.local_init("P")})
+            if self.p(0.2):
+                decl[-1]["parts"] = True
+                decl[-1]["wavelength"] = float(self.ch([780.0, 1310.0, 1550.0]))
         for i in range(ncus):
             d = int(r.integers(2, 4))
             decl.append({"t": "custom", "name": f"X{i}", "d": d, "init": self.local_init("X", d)})
@@ -421,6 +424,9 @@ class Gen:
                 k = 3
             kinds = [w.kind(n) for n in tg]
             spec["state_types"] = kinds
+            x = r.random()
+            if x < 0.45:
+                spec["types_form"] = "str" if x < 0.2 else "list" if x < 0.35 else "mixed"
             ctx = {}
             factors = []
             gens = []
